@@ -13,6 +13,9 @@ package main
 //     under AES-CFB, to garbage), blobs that decrypt to `x:y` (`rt-shape-*`),
 //   * the issuer: static, or derived from the request (op.IssuerFromHost / IssuerFromForwardedOrHost) with 2-3 virtual issuers on ONE
 //     provider; tokens of issuer A are presented at issuer B and vice versa, in both orders (`cross-issuer-*`),
+//     over a storage that partitions its records by the issuer of the context (`storage-partitioned`) or keeps ONE table for all
+//     issuers (`storage-flat`, `flat-cross-issuer-*`: opaque / refresh tokens are then found under every issuer, JWT access tokens
+//     must still be refused elsewhere by the library's own check of the `iss` claim),
 //   * TIME: the lifetimes the storage gives its access / refresh tokens (`ttl-*`: default 5 min / 5 h; `past`: the stored expiration is
 //     already behind the clock when the token is handed out; `short`: 0.3-0.9 s, with requests placed just before / at / just after the
 //     expiry edges - the storage's expiration, the second the exp claim of a JWT is cut to, and the same shifted by the client's clock
@@ -132,6 +135,75 @@ type c08Opts struct {
 	expiryByClaim bool          // refstore.Store.JWTExpiryByClaim
 	termFromReq   bool          // the storage implements op.CanTerminateSessionFromRequest
 	sigAlg        string        // the algorithm the provider signs its tokens with ("" = RS256, the verifiers' default)
+	flat          bool          // multi-issuer provider over ONE token table: the storage does not partition its records by issuer
+}
+
+// ---------------------------------------------------------------- reproducibility
+
+const c08Stride = 1000 // case id = history index * c08Stride + line within the history
+
+// c08Entropy: crypto/rand.Reader for the duration of one history (AES IVs, so that a replayed history hands out the same opaque
+// token strings and a flipped character decrypts to the same plaintext)
+type c08Entropy struct{ r *hx.Rand }
+
+func (e *c08Entropy) Read(p []byte) (int, error) {
+	for i := range p {
+		p[i] = byte(e.r.U64() >> 17)
+	}
+	return len(p), nil
+}
+
+// c08OnlyHistory: the history a replay (`vharness -only <case id>`) asks for, -1 = all
+func c08OnlyHistory() int {
+	for i, a := range os.Args {
+		v := ""
+		switch {
+		case (a == "-only" || a == "--only") && i+1 < len(os.Args):
+			v = os.Args[i+1]
+		case strings.HasPrefix(a, "-only="):
+			v = strings.TrimPrefix(a, "-only=")
+		case strings.HasPrefix(a, "--only="):
+			v = strings.TrimPrefix(a, "--only=")
+		}
+		if n, err := strconv.Atoi(v); err == nil && v != "" {
+			return n / c08Stride
+		}
+	}
+	return -1
+}
+
+func c08Hash(s string) uint64 {
+	h := sha256.Sum256([]byte(s))
+	var v uint64
+	for _, b := range h[:8] {
+		v = v<<8 | uint64(b)
+	}
+	return v
+}
+
+// c08Subjects: the users of a history. Beside two plain ones, identifiers that contain the separator of the opaque access-token
+// format and other bytes a parser might trip over
+var c08OddSubjects = []string{
+	"urn:example:user:alice", // URN: several colons
+	"did:web:example.com:bob", // DID
+	"idp:42",                  // one colon (federated "provider:id")
+	"a%3Ab",                   // a percent-encoded colon: nobody may decode it
+	"carol|t1;x=y&z+w",        // other separator-like bytes
+	"dave:",                   // ends with the separator
+	":erin",                   // starts with it
+	"at1:user1",               // looks like the content of another opaque token
+}
+
+func c08SubKind(sub string) string {
+	switch n := strings.Count(sub, ":"); {
+	case n == 0 && strings.ContainsAny(sub, "%|;&+="):
+		return "sepbytes"
+	case n == 0:
+		return "plain"
+	case n == 1:
+		return "one-colon"
+	}
+	return "many-colons"
 }
 
 // ---------------------------------------------------------------- reproducibility
@@ -218,7 +290,10 @@ func c08NewBed(router, issMode string, hosts []string, mint func(string) string,
 		alg = o.sigAlg
 	}
 	st := refstore.New(refstore.SigningKeySpec{Kid: "sig1", Alg: jose.SignatureAlgorithm(alg), Priv: key.Priv, Pub: key.Pub})
-	st.MultiTenant = issMode != "static" // request-derived issuers: the storage partitions its records by op.IssuerFromContext(ctx)
+	// request-derived issuers: the storage partitions its records by op.IssuerFromContext(ctx) (as the repo's multi-issuer example) -
+	// or, `flat`, keeps one table for all virtual issuers: the documented Storage contract does not demand partitioning, and for
+	// self-contained (JWT) access tokens the LIBRARY checks the `iss` claim against the issuer of the request
+	st.MultiTenant = issMode != "static" && !o.flat
 	st.JWTExpiryByClaim = o.expiryByClaim
 	if o.attl != 0 {
 		st.AccessTTL = o.attl
@@ -425,6 +500,7 @@ func c08Stream(r *hx.Rand, tier string, n int, w *bufio.Writer) map[string]int {
 		o.expiryByClaim = r.Chance(60)
 		o.termFromReq = r.Chance(30)
 		o.sigAlg = hx.Pick(r, "", "", "", "", "", "RS512", "RS384", "PS256")
+		o.flat = r.Chance(35) && issMode != "static" // (drawn for every history)
 		skewJWT := hx.Pick(r, 0, 0, time.Second, 2*time.Second, 30*time.Second, 30*time.Second, time.Hour, time.Hour)
 		skewWeb := hx.Pick(r, 0, 0, 0, 30*time.Second)
 		skewPub := hx.Pick(r, 0, 0, 5*time.Second)
@@ -439,6 +515,11 @@ func c08Stream(r *hx.Rand, tier string, n int, w *bufio.Writer) map[string]int {
 		}
 		if o.termFromReq {
 			stats["storage-termfromreq"]++
+		}
+		if o.flat {
+			stats["storage-flat"]++
+		} else if issMode != "static" {
+			stats["storage-partitioned"]++
 		}
 		if o.sigAlg != "" {
 			stats["provider-sigalg-"+o.sigAlg]++
@@ -487,7 +568,7 @@ func c08Stream(r *hx.Rand, tier string, n int, w *bufio.Writer) map[string]int {
 		}
 		h0 = caseNo
 		l := line("reset").S("router", router).S("issuer", opbed.Issuer).S("issmode", issMode).L("hosts", hosts).S("rtshape", rtShape).
-			S("ttl", ttl).S("sigalg", bed.Cfg.SignAlg).B("byclaim", o.expiryByClaim).B("termfromreq", o.termFromReq).S("default", "https://op.example/logged-out")
+			S("ttl", ttl).S("sigalg", bed.Cfg.SignAlg).B("flat", o.flat).B("byclaim", o.expiryByClaim).B("termfromreq", o.termFromReq).S("default", "https://op.example/logged-out")
 		clientsKV(l, cls)
 		ksLinePub(l, "published", []pubKey{{k: bed.SignKey, kid: "sig1", use: "sig"}})
 		emit(l)
@@ -556,6 +637,9 @@ func c08Stream(r *hx.Rand, tier string, n int, w *bufio.Writer) map[string]int {
 				for {
 					if h := hosts[r.Intn(len(hosts))]; h != t.host {
 						stats["cross-issuer-"+opName+"-"+what]++
+						if o.flat {
+							stats["flat-cross-issuer-"+opName+"-"+what]++
+						}
 						return h, true
 					}
 				}
